@@ -222,6 +222,39 @@ def shares_safe_set(protocol, service):
         c.close()
 
 
+def servers_own_dict(service):
+    """two servers constructed without a protocol_config hold DISTINCT dict objects, an edit of the one's does not show
+    in the other's, and a server constructed later is not affected either (observed on real ThreadedServers)"""
+    from rpyc.utils.server import ThreadedServer
+    made = []
+    try:
+        a = ThreadedServer(service.VoidService, hostname="127.0.0.1", port=0, auto_register=False)
+        made.append(a)
+        b = ThreadedServer(service.VoidService, hostname="127.0.0.1", port=0, auto_register=False)
+        made.append(b)
+        distinct = a.protocol_config is not b.protocol_config
+        a.protocol_config["allow_public_attrs"] = True
+        a.protocol_config.update(allow_setattr=True)
+        leak_b = "allow_public_attrs" in b.protocol_config or "allow_setattr" in b.protocol_config
+        c = ThreadedServer(service.VoidService, hostname="127.0.0.1", port=0, auto_register=False)
+        made.append(c)
+        leak_c = "allow_public_attrs" in c.protocol_config or "allow_setattr" in c.protocol_config
+        given = {"allow_public_attrs": False}
+        d = ThreadedServer(service.VoidService, hostname="127.0.0.1", port=0, auto_register=False, protocol_config=given)
+        made.append(d)
+        keeps_given = d.protocol_config is given
+    finally:
+        for srv in made[:3]:
+            srv.protocol_config.pop("allow_public_attrs", None)      # undo the probe edits (matters only if shared)
+            srv.protocol_config.pop("allow_setattr", None)
+        for srv in made:
+            try:
+                srv.listener.close()
+            except Exception:  # noqa
+                pass
+    return (distinct and not leak_b and not leak_c), keeps_given
+
+
 def classic_aliasing(protocol, service):
     """does a classic-mode connect write into the dict object the caller passed, and does it grow the shared default
     `safe_attrs` set object in place (observed)"""
@@ -348,6 +381,7 @@ def gen_policy():
           "def getattrDelegates : List String := " + lean_list([lean_str(d) for d in delegates], 5)]
     own_copy, equals_defaults, overlaid, untouched, frozen, mode = init_behaviour(protocol, service)
     writes_arg, added = classic_aliasing(protocol, service)
+    servers_own, keeps_given = servers_own_dict(service)
     L += ["", "/-- `Connection.__init__`, observed: the connection's `_config` is its own dict (not DEFAULT_CONFIG, not shared),",
           "equals the defaults when no config is given, has the caller's keys overlaid, and neither DEFAULT_CONFIG nor the",
           "caller's dict is modified -/",
@@ -366,6 +400,11 @@ def gen_policy():
           "/-- classic mode, observed: does the connect write its overrides into the dict object the caller passed; which",
           "names does it add in place to the default `safe_attrs` set object -/",
           "def classicWritesCallerDict : Bool := %s" % lean_bool(writes_arg),
+          "/-- servers constructed without a protocol_config hold dict objects of their own (two such servers: distinct",
+          "objects, an in-place edit of one's does not show in the other's nor in a server constructed later); a server",
+          "constructed WITH a dict keeps that very object (documented sharing) -- observed on real ThreadedServers -/",
+          "def serversOwnDict : Bool := %s" % lean_bool(servers_own),
+          "def serverKeepsGivenDict : Bool := %s" % lean_bool(keeps_given),
           "def classicAddsToSafeCp : List (List Nat) := [%s]" % ", ".join(cps(n) for n in added)]
     # SlaveService.on_connect
     upd, unchanged = slave_update(protocol, service)
